@@ -65,6 +65,12 @@ theorem zigzag_result_characterised (vs target : List Nat)
   refine ⟨_, zigzagIn_eq_filter vs target hvs htarget hmarker, hvs.filter _, ?_⟩
   intro x; simp [List.mem_filter]
 
+/-- The oracle side of (a): `S`'s `sortedIntersection` really is `sorted(set(a).intersection(b))`, for ALL
+lists (unsorted, with duplicates): strictly increasing, members = the common members. -/
+theorem sortedIntersection_is_set_intersection (a b : List Nat) :
+    (Block.sortedIntersection a b).Pairwise (· < ·) ∧ ∀ y, y ∈ Block.sortedIntersection a b ↔ y ∈ a ∧ y ∈ b :=
+  sortedIntersection_spec a b
+
 /-- (b) `phase0.InitiateValidatorExit`: one pass over the registry tracking (queue end, churn at the
 end) equals the spec's `max(exit_epochs + [activation_exit_epoch])` followed by a count, for every
 registry — given the epochs-context invariant `activeCount = |active validators|` (C08) and that no
